@@ -31,6 +31,7 @@ class Joiner:
         self.phi_path = {}
         self.sa_all = {}
         self.sb_all = {}
+        self.phi_ctx = {}
 
     # ---- symbols
     def sym(self, a, b, path):
@@ -42,6 +43,8 @@ class Joiner:
         p = st.get(key, (min(ra[0], rb[0]), max(ra[1], rb[1])))
         self.phis.append((p, a, b))
         self.phi_path[p] = path
+        if self._ctx_a or self._ctx_b:
+            self.phi_ctx[p] = (self._ctx_a, self._ctx_b)  # the phi sits inside enum variants: what each side knows there
         self.sa.setdefault(a, p)
         self.sb.setdefault(b, p)
         # one source symbol can sit in several places and so get several phis: keep them all for interval deltas
@@ -352,9 +355,10 @@ class Joiner:
                     continue
                 w = {}
                 wa, wb = A.when.get(a, {}), B.when.get(b, {})
+                cxa, cxb = self.phi_ctx.get(p, ((), ()))
                 for v in set(va) | set(vb):
-                    da = self._case_delta(A, a, v, wa, self.sa) if v in va else None
-                    db = self._case_delta(B, b, v, wb, self.sb) if v in vb else None
+                    da = self._case_delta(A, a, v, wa, self.sa, cxa) if v in va else None
+                    db = self._case_delta(B, b, v, wb, self.sb, cxb) if v in vb else None
                     d = da if db is None else (db if da is None else self._join_delta(da, db))
                     if d is not None and (d.iv or d.facts):
                         w[v] = d
@@ -509,7 +513,7 @@ class Joiner:
             ef[jl] = tuple(ef.get(jl, ())) + tuple(t for t in ts if t not in ef.get(jl, ()))
         return Delta(iv, facts[:24], base.gen, ef)
 
-    def _case_delta(self, X, x, v, wx, sx):
+    def _case_delta(self, X, x, v, wx, sx, ctx=()):
         """What side X knows beyond J when its value x equals v.  If x can take several values on
         that side and is *defined* there (a comparison, a negation, an overflow flag or a value with
         its own conditional refinements), the definition is applied first: `let b = p && q;` keeps
@@ -520,8 +524,12 @@ class Joiner:
             X2.assume_sym(x, D.point(v))
             if X2.dead:
                 return None
+            if ctx:
+                X2.apply_delta(_merge_deltas(ctx))
+                if X2.dead:
+                    return None
             return self._delta0(X2, None, sx, like=X)
-        return self._delta(X, wx.get(v), sx)
+        return self._delta(X, _merge_deltas(tuple(ctx) + ((wx[v],) if v in wx else ())), sx)
 
     def _delta0(self, X, extra, sx, like=None):
         J = self.J
